@@ -37,7 +37,7 @@ NAMES = {'black': (0, 0, 0), 'white': (255, 255, 255), 'red': (255, 0, 0), 'blue
          'aqua': (0, 255, 255), 'cyan': (0, 255, 255), 'fuchsia': (255, 0, 255), 'magenta': (255, 0, 255), 'maroon': (128, 0, 0), 'olive': (128, 128, 0),
          'purple': (128, 0, 128), 'teal': (0, 128, 128), 'lime': (0, 255, 0), 'hotpink': (255, 105, 180), 'cornflowerblue': (100, 149, 237),
          'darkblue': (0, 0, 139), 'darkred': (139, 0, 0), 'brown': (165, 42, 42), 'gold': (255, 215, 0), 'pink': (255, 192, 203), 'indigo': (75, 0, 130),
-         'violet': (238, 130, 238)}
+         'violet': (238, 130, 238), 'aliceblue': (240, 248, 255), 'antiquewhite': (250, 235, 215)}
 
 
 def ref_rgba(c):
@@ -101,7 +101,9 @@ def jobs(tier, seed):
     colour_cfgs = [dict(dark='darkblue', light='#fff'), dict(dark='#000', light=None), dict(dark=None, light='#000'), dict(dark='#ff0000', light='yellow'),
                    dict(dark='#fff', light='#000'), dict(dark=(10, 20, 30), light=(200, 210, 220)), dict(dark='#0000ffcc', light=None),
                    dict(dark='slategrey', light='lightslategrey'), dict(dark='navy', light='black'), dict(dark='#36c', light='white'),
-                   dict(dark=(0, 0, 0, 0.5), light=(255, 255, 255, 128))]
+                   dict(dark=(0, 0, 0, 0.5), light=(255, 255, 255, 128)),
+                   # the colour the PNG writer would pick as stand-in for 'transparent' is itself in use
+                   dict(dark='aliceblue', light=None), dict(dark=None, light='#f0f8ff'), dict(dark='antiquewhite', light=None)]
     for cfg in colour_cfgs:
         add('png', 11, 2, 1, **cfg)
         if cfg['dark'] is not None:
